@@ -728,6 +728,26 @@ def run_options(ctx):
             if res != ("out", civil.strftime(fmt)):
                 ctx.violation("print_format_fallback", {"fmt": fmt}, {"kind": "options", "argv": [text, "-f", fmt, "-s", "PT1H"]},
                               civil.strftime(fmt), list(res))
+    # ... and on the days around New Year, where the ISO week-numbering year and the calendar year of one day differ: every
+    # representation of the first and last four days of seven consecutive years, written in two offsets
+    for yy in range(2015, 2022):
+        for mo, dd in ((1, 1), (1, 2), (1, 3), (1, 4), (12, 28), (12, 29), (12, 30), (12, 31)):
+            dn = cg.dn_from("cal", (yy, mo, dd))
+            for rep, pat in (("cal", "%04d-%02d-%02d"), ("ord", "%04d-%03d"), ("week", "%04d-W%02d-%d")):
+                for zone, tod in (("Z", 6 * 3600), ("+01:00", 23 * 3600 + 1800)):
+                    text = pat % tuple(cg.from_dn(rep, dn)) + "T%02d:%02d:00" % (tod // 3600, tod % 3600 // 60) + zone
+                    local = dn * 86400 + tod + 3600
+                    y, mo2, d2 = cg.cal_from_dn(local // 86400)
+                    t = local % 86400
+                    civil = _dt.datetime(y, mo2, d2, t // 3600, t % 3600 // 60, t % 60)
+                    for fmt in ("%a %d %b %Y", "%y %B %d %I%p"):
+                        ctx.transitions += 1
+                        ctx.state_count += 1
+                        res = run_main([text, "-f", fmt, "-s", "PT1H"])
+                        if res != ("out", civil.strftime(fmt)):
+                            ctx.violation("print_format_fallback", {"fmt": fmt, "rep": rep, "year_edge": True},
+                                          {"kind": "options", "argv": [text, "-f", fmt, "-s", "PT1H"]},
+                                          civil.strftime(fmt), list(res))
     # the two strptime notations the command accepts besides ISO 8601 (ctime, Unix date): shifted by exact offsets and
     # printed back in the notation they were written in; the civil arithmetic is judged by the datetime library
     for text, fmt in (("Thu Jan 01 00:00:00 1970", "%a %b %d %H:%M:%S %Y"), ("Mon Feb 29 23:59:59 2016", "%a %b %d %H:%M:%S %Y"),
